@@ -284,6 +284,10 @@ pub struct FaultCfg {
     /// A collision storm of exact length: in every round from `addr_in_use_from_round` on,
     /// after `.0` successful TCP binds the next `.1` binds fail with EADDRINUSE.
     pub addr_in_use_burst: Option<(u32, u32)>,
+    /// At socket call number `.0` the wall clock is stepped back by `.1` nanoseconds (the
+    /// monotonic clock runs on): send and receive times the tracer takes around that moment
+    /// may be out of order.
+    pub wall_clock_back: Option<(u64, u64)>,
     pub tick_base_ns: u64,
     pub tick_jitter_ns: u64,
 }
@@ -440,6 +444,7 @@ impl Scenario {
                 "addr_in_use_pm": self.faults.addr_in_use_pm,
                 "addr_in_use_from_round": self.faults.addr_in_use_from_round,
                 "addr_in_use_burst": self.faults.addr_in_use_burst.map(|(a, b)| vec![a, b]),
+                "wall_clock_back": self.faults.wall_clock_back.map(|(a, b)| vec![a, b]),
                 "tick_base_ns": self.faults.tick_base_ns,
                 "tick_jitter_ns": self.faults.tick_jitter_ns,
             },
